@@ -35,7 +35,7 @@ CLAIMED = {
             "Every byte offset of every small bundled file (dense samples of the four large ones) x the property's five error kinds (plus one of fifteen further kinds, rotating with the offset) x {direct, under std BufReader}, one-shot and sticky, mixed with Interrupted and chunking; every output offset x {hard error, Ok(0)} x {direct, by-value std BufWriter}; flush failure of every kind incl. Interrupted, sticky or on the first flush only (Ok is accepted only if the last flush the sink saw succeeded); short writes and Interrupted-only sinks; every input of <= 2 bytes x every Interrupted subset of the first four device calls; two synthetic full-featured maps in the corpus so every kind of output line meets every fault offset, and one tricky-text map stored as UTF-8+BOM / UTF-16LE / UTF-16BE so every byte of CR/LF-byte code units, surrogate pairs and multi-byte sequences meets a read fault; seven real-OS probes (through a scratch symlink, never the device node itself; incl. a zero-length special file whose reads fail). Oracle: injected failure => Err of that kind whose payload is still the device's error object (directly or along the source chain), transient => unchanged outcome, sink bytes always a prefix of the clean encoding, nothing swallowed (including in Drop).",
             "Trusted: std BufReader/BufWriter, the SimReader/SimWriter stubs. ErrorKind and reachability of the injected payload are compared. Offsets of the four large files are sampled.", "§4 C09"),
     "C10": ("exploration", "deterministic simulation over the storage-encoding knob with invalid-sequence / truncation injection: self-differential across encodings and against std's lossy conversion; exhaustive single-scalar sweep",
-            "All Unicode scalar values as metadata content in byte-neighbour contexts, as the last character of an unterminated line and before a dangling byte, in the four encodings (exhaustive over single scalars, both tiers); all texts <= 4 over {NUL, o, [, LF, CR, e-acute, U+4E0A, U+0D0A}; every sequence of <= 5 UTF-16 code units over {high, low, highest high, lowest low, a, LF} in LE and BE (the surrogate pairing grammar, enumerated); whole lines made only of characters whose code units are CR/LF/NUL bytes; lines longer than 64 KiB in only some of the encodings; texts beginning with U+FEFF (BOM-marked encodings only); bursts of 64..300 invalid bytes in one line; block-straddle lines of 5000 multi-unit characters at 8 offsets; bundled and generated texts in four encodings under one random delivery schedule; storage with injected invalid UTF-8 (incl. CESU-8 pairs, overlong forms, beyond U+10FFFF), lone surrogates, odd tails and UTF-16 truncation (every truncation length of every small file's transcodings in the thorough tier) compared with decoding the std lossy conversion of the payload.",
+            "All Unicode scalar values as metadata content in byte-neighbour contexts, as the last character of an unterminated line, before a dangling byte, and cut at every byte inside the character at the end of a UTF-8 file, in the four encodings (exhaustive over single scalars, both tiers); all texts <= 4 over {NUL, o, [, LF, CR, e-acute, U+4E0A, U+0D0A}; every sequence of <= 5 UTF-16 code units over {high, low, highest high, lowest low, a, LF} in LE and BE (the surrogate pairing grammar, enumerated); whole lines made only of characters whose code units are CR/LF/NUL bytes; lines longer than 64 KiB in only some of the encodings; texts beginning with U+FEFF (BOM-marked encodings only); bursts of 64..300 invalid bytes in one line; block-straddle lines of 5000 multi-unit characters at 8 offsets; bundled and generated texts in four encodings under one random delivery schedule; storage with injected invalid UTF-8 (incl. CESU-8 pairs, overlong forms, beyond U+10FFFF), lone surrogates, odd tails and UTF-16 truncation (every truncation length of every small file's transcodings in the thorough tier) compared with decoding the std lossy conversion of the payload.",
             "Trusted: std from_utf8_lossy / decode_utf16 as lossy reference; Debug fingerprint. Exhaustive only over single scalars, not strings.", "§4 C10"),
     "C12": ("exploration", "seeded search over timing-point line histories with reorder/duplicate/drop perturbations against an executable legacy reference model (sequential core of simulation testing; weak fit, no I/O fault applies)",
             "Every line sequence up to length 3 (quick) / 5 (thorough) over a 12-line alphabet x 4 modes, plus seeded histories (0..24 lines over the property's alphabet, optional fields omitted, comments) and the bundled maps' timing sections, each under reorder / duplicate / drop perturbations and [General] Mode switches or records of other sections arriving between lines; near-equal times and values (±ulp, ±epsilon), padded flags, meters beyond i32, surplus fields, out-of-range defaults, integer fields at the edge of every 8/16/32/64-bit width (signed, unsigned, padded), Mode values that are not a mode, format versions >= 5; driven through the line API, decode::<TimingPoints>, decode::<Beatmap> and decode::<HitObjects>. The four lists must equal the legacy model bit for bit, be strictly increasing and clamped.",
